@@ -204,6 +204,10 @@ theorem jsV_anyOf (R S) (ss : List PyVal) (d : PyVal) :
     jsV R S (.dict [kw "anyOf" (.list ss)]) d = jsAnyL R S ss d := by
   simp [jsV, getKw, kw, keyIs, jsKws, kwOf, kwOfStr, kwNode, jsAnyV]
 
+theorem jsV_allOf (R S) (ss : List PyVal) (d : PyVal) :
+    jsV R S (.dict [kw "allOf" (.list ss)]) d = jsAllL R S ss d := by
+  simp [jsV, getKw, kw, keyIs, jsKws, kwOf, kwOfStr, kwNode, jsAllV]
+
 /-! ### arrays -/
 
 /-- a schema as the mappers emit it: a JSON object (or nothing, when the mapping raises) -/
@@ -361,18 +365,26 @@ theorem typeObject_ok (R S) (ctx : List (PyVal × PyVal)) (kvs : List (PyVal × 
     jsKws R S ctx [kw "type" (.str "object")] (.dict kvs) = true := by
   simp [jsKws, kw, kwOf, kwOfStr, kwNode, kwLeaf, typeOk, typeIs]
 
-theorem sizeKws_obj (R S) (ctx : List (PyVal × PyVal)) (sz : SizeOpts) (kvs : List (PyVal × PyVal)) :
-    jsKws R S ctx (optKw "maxItems" (sz.max.map natJ)) (.dict kvs) = true
-      ∧ jsKws R S ctx (optKw "minItems" (sz.min.map natJ)) (.dict kvs) = true := by
+theorem sizeKws_obj (R S) (ctx : List (PyVal × PyVal)) (sz : SizeOpts) (kvs : List (PyVal × PyVal))
+    (hsz : sizeOk sz kvs.length = true) :
+    jsKws R S ctx (optKw "maxProperties" (sz.max.map natJ)) (.dict kvs) = true
+      ∧ jsKws R S ctx (optKw "minProperties" (sz.min.map natJ)) (.dict kvs) = true := by
+  simp only [sizeOk, and_true_iff'] at hsz
   constructor
   · cases h : sz.max with
     | none => rfl
-    | some n => simp [Option.map, optKw, jsKws, kw, kwOf, kwOfStr, kwNode, kwLeaf]
+    | some n =>
+      simp only [Option.map, optKw]
+      simp [jsKws, kw, kwOf, kwOfStr, kwNode, kwLeaf, natOf_natJ]
+      simpa [leLen, h] using hsz.2
   · cases h : sz.min with
     | none => rfl
-    | some n => simp [Option.map, optKw, jsKws, kw, kwOf, kwOfStr, kwNode, kwLeaf]
+    | some n =>
+      simp only [Option.map, optKw]
+      simp [jsKws, kw, kwOf, kwOfStr, kwNode, kwLeaf, natOf_natJ]
+      simpa [geLen, h] using hsz.1
 
-theorem jsV_mapAny (R S) (sz : SizeOpts) (kvs : List (PyVal × PyVal)) :
+theorem jsV_mapAny (R S) (sz : SizeOpts) (kvs : List (PyVal × PyVal)) (hsz : sizeOk sz kvs.length = true) :
     jsV R S (.dict (mapKws none none sz)) (.dict kvs) = true := by
   have href : getKw "$ref" (mapKws none none sz) = none := by
     simp [mapKws, getKw_append, getKw_optKw, getKw, kw, keyIs]
@@ -380,7 +392,7 @@ theorem jsV_mapAny (R S) (sz : SizeOpts) (kvs : List (PyVal × PyVal)) :
   suffices h : ∀ ctx, jsKws R S ctx (mapKws none none sz) (.dict kvs) = true from h _
   intro ctx
   simp only [mapKws, jsKws_append, and_true_iff']
-  have h2 := sizeKws_obj R S ctx sz kvs
+  have h2 := sizeKws_obj R S ctx sz kvs hsz
   exact ⟨⟨⟨typeObject_ok R S ctx kvs, rfl⟩, h2.1⟩, h2.2⟩
 
 theorem all_filter_of_all {α} (p q : α → Bool) (xs : List α) (h : xs.all q = true) :
@@ -391,7 +403,7 @@ theorem all_filter_of_all {α} (p q : α → Bool) (xs : List α) (h : xs.all q 
 
 /-- `Map[String(constraints), V]`: `patternProperties: {<pattern>: <schema of V>}` -/
 theorem jsV_mapPat (R S) (k : FieldDecl) (s : PyVal) (sz : SizeOpts) (kvs : List (PyVal × PyVal))
-    (hk : (mapKeyPattern k != "") = true)
+    (hk : (mapKeyPattern k != "") = true) (hsz : sizeOk sz kvs.length = true)
     (hall : kvs.all (fun kv => jsV R S s kv.2) = true) :
     jsV R S (.dict (mapKws (some k) (some s) sz)) (.dict kvs) = true := by
   have href : getKw "$ref" (mapKws (some k) (some s) sz) = none := by
@@ -400,7 +412,7 @@ theorem jsV_mapPat (R S) (k : FieldDecl) (s : PyVal) (sz : SizeOpts) (kvs : List
   suffices h : ∀ ctx, jsKws R S ctx (mapKws (some k) (some s) sz) (.dict kvs) = true from h _
   intro ctx
   simp only [mapKws, hk, if_true, jsKws_append, and_true_iff']
-  have h2 := sizeKws_obj R S ctx sz kvs
+  have h2 := sizeKws_obj R S ctx sz kvs hsz
   refine ⟨⟨⟨typeObject_ok R S ctx kvs, ?_⟩, h2.1⟩, h2.2⟩
   simp only [jsKws, kw, kwOf, kwOfStr, kwNode, jsPatsV, jsPats, docKey, Bool.and_true]
   simp
@@ -411,7 +423,7 @@ theorem jsV_mapPat (R S) (k : FieldDecl) (s : PyVal) (sz : SizeOpts) (kvs : List
 
 /-- `Map[String, V]` with an unconstrained key: `additionalProperties: <schema of V>` -/
 theorem jsV_mapOf (R S) (k : FieldDecl) (s : PyVal) (sz : SizeOpts) (kvs : List (PyVal × PyVal))
-    (hk : mapKeyPattern k = "") (hs : dictOrNone s = true)
+    (hk : mapKeyPattern k = "") (hs : dictOrNone s = true) (hsz : sizeOk sz kvs.length = true)
     (hall : kvs.all (fun kv => jsV R S s kv.2) = true) :
     jsV R S (.dict (mapKws (some k) (some s) sz)) (.dict kvs) = true := by
   have href : getKw "$ref" (mapKws (some k) (some s) sz) = none := by
@@ -420,12 +432,101 @@ theorem jsV_mapOf (R S) (k : FieldDecl) (s : PyVal) (sz : SizeOpts) (kvs : List 
   suffices h : ∀ ctx, jsKws R S ctx (mapKws (some k) (some s) sz) (.dict kvs) = true from h _
   intro ctx
   simp only [mapKws, hk, jsKws_append, and_true_iff']
-  have h2 := sizeKws_obj R S ctx sz kvs
+  have h2 := sizeKws_obj R S ctx sz kvs hsz
   refine ⟨⟨⟨typeObject_ok R S ctx kvs, ?_⟩, h2.1⟩, h2.2⟩
   have hx : (extraMembers S ctx kvs).all (fun kv => jsV R S s kv.2) = true := by
     unfold extraMembers
     exact all_filter_of_all _ _ _ hall
   cases s <;> simp [dictOrNone] at hs <;>
     simp [jsKws, kw, kwOf, kwOfStr, kwNode] <;> simpa using hx
+
+theorem c08_getKw_setKw_ne (k k' : String) (v : PyVal) (hne : (k' == k) = false) :
+    ∀ kvs : List (PyVal × PyVal), getKw k (setKw k' v kvs) = getKw k kvs
+  | [] => by simp [setKw, getKw, kw, keyIs, hne]
+  | (a, w) :: rest => by
+    simp only [setKw]
+    split
+    · rename_i h
+      -- the replaced entry's key is `k'`, not `k`
+      have ha : keyIs k a = false := by
+        cases a <;> simp [keyIs] at h ⊢
+        subst h
+        simpa using hne
+      simp [getKw, ha]
+    · simp only [getKw, c08_getKw_setKw_ne k k' v hne rest]
+
+
+/-! ### the validator ignores `default` -/
+
+/-- the two enclosing objects answer every lookup the validator makes in the same way -/
+def CtxEq (ctx ctx' : List (PyVal × PyVal)) : Prop :=
+  ∀ k : String, (k == "default") = false → getKw k ctx' = getKw k ctx
+
+theorem c08_kwNode_ctx (S) (ctx ctx' : List (PyVal × PyVal)) (h : CtxEq ctx ctx') (k : Kw) (v d : PyVal)
+    (one : PyVal → Bool) (zip : List PyVal → Bool) (allL anyL : Unit → Bool) (cnt : Unit → Nat)
+    (props pats : List (PyVal × PyVal) → Bool) :
+    kwNode S ctx' k v d one zip allL anyL cnt props pats = kwNode S ctx k v d one zip allL anyL cnt props pats := by
+  have h1 : boolKw "exclusiveMinimum" ctx' = boolKw "exclusiveMinimum" ctx := by
+    simp only [boolKw, h "exclusiveMinimum" (by decide)]
+  have h2 : boolKw "exclusiveMaximum" ctx' = boolKw "exclusiveMaximum" ctx := by
+    simp only [boolKw, h "exclusiveMaximum" (by decide)]
+  have h3 : itemsLen ctx' = itemsLen ctx := by simp only [itemsLen, h "items" (by decide)]
+  have h4 : memberNames "properties" ctx' = memberNames "properties" ctx := by
+    simp only [memberNames, h "properties" (by decide)]
+  have h5 : memberNames "patternProperties" ctx' = memberNames "patternProperties" ctx := by
+    simp only [memberNames, h "patternProperties" (by decide)]
+  have h6 : ∀ kvs, extraMembers S ctx' kvs = extraMembers S ctx kvs := by
+    intro kvs; simp only [extraMembers, h4, h5]
+  cases k <;> simp only [kwNode, kwLeaf, h1, h2, h3, h6]
+
+theorem c08_jsKws_ctx (R S) (ctx ctx' : List (PyVal × PyVal)) (h : CtxEq ctx ctx') :
+    ∀ (kws : List (PyVal × PyVal)) (d : PyVal), jsKws R S ctx' kws d = jsKws R S ctx kws d
+  | [], _ => by simp [jsKws]
+  | (k, v) :: rest, d => by
+    simp only [jsKws, c08_kwNode_ctx S ctx ctx' h, c08_jsKws_ctx R S ctx ctx' h rest d]
+
+theorem c08_kwNode_default (S) (ctx : List (PyVal × PyVal)) (k v d : PyVal) (hk : keyIs "default" k = true)
+    (one : PyVal → Bool) (zip : List PyVal → Bool) (allL anyL : Unit → Bool) (cnt : Unit → Nat)
+    (props pats : List (PyVal × PyVal) → Bool) :
+    kwNode S ctx (kwOf k) v d one zip allL anyL cnt props pats = true := by
+  cases k <;> simp [keyIs] at hk
+  subst hk
+  simp [kwOf, kwOfStr, kwNode, kwLeaf]
+
+theorem c08_jsKws_setKw_default (R S) (ctx : List (PyVal × PyVal)) (v d : PyVal) :
+    ∀ kws : List (PyVal × PyVal), jsKws R S ctx (setKw "default" v kws) d = jsKws R S ctx kws d
+  | [] => by
+    simp only [setKw, jsKws, Bool.and_true]
+    exact c08_kwNode_default S ctx _ v d (by simp [kw, keyIs]) _ _ _ _ _ _ _
+  | (k, w) :: rest => by
+    simp only [setKw]
+    split
+    · rename_i hk
+      simp only [jsKws, c08_kwNode_default S ctx k _ d hk]
+    · simp only [jsKws, c08_jsKws_setKw_default R S ctx v d rest]
+
+/-- a schema with a `default` written into it judges documents as the schema without it -/
+theorem c08_jsV_addDefault (R S) (s : PyVal) (dv : Option PyVal) (x : PyVal) :
+    jsV R S (addDefault s dv) x = jsV R S s x := by
+  cases dv with
+  | none => rfl
+  | some v =>
+    cases s with
+    | dict kvs =>
+      simp only [addDefault, jsV, c08_getKw_setKw_ne "$ref" "default" _ (by decide) kvs]
+      cases getKw "$ref" kvs with
+      | some r => rfl
+      | none =>
+        simp only []
+        rw [c08_jsKws_ctx R S kvs (setKw "default" (defaultJ v) kvs)
+          (fun k hk => c08_getKw_setKw_ne k "default" _ (by
+            cases h : ("default" == k) with
+            | false => rfl
+            | true =>
+              have : "default" = k := by simpa using h
+              subst this
+              simp at hk) kvs)]
+        exact c08_jsKws_setKw_default R S kvs _ x kvs
+    | _ => rfl
 
 end Typedpy.Sch
